@@ -41,6 +41,10 @@ type qField struct {
 	// Ptr: the field is declared with the pointer type of one provider type (PlainNQ, PlainQ, PrimNQ,
 	// PrimQ) instead of the interface: its candidates are the providers of exactly that type
 	Ptr string `json:"pointer_to,omitempty"`
+	// Name: text written where a by-name point has its name; every one of them resolves to the empty
+	// text (a placeholder of an absent key with an empty default, an expression yielding ""), so the
+	// point is a by-type point like one written without a name
+	Name string `json:"name_text,omitempty"`
 }
 
 var qPtrTypes = map[string]reflect.Type{
@@ -143,6 +147,20 @@ func resolveGen(c *core.Ctx) func(yield func(resolveCase) bool) {
 					is := qField{Kind: "single", Qual: qa}
 					for _, fs := range [][]qField{{ps, pl}, {is, ps}, {qField{Kind: "single", Qual: qa, Ptr: tk, Opt: true}, pl}} {
 						if !yield(resolveCase{Pop: pop, Fields: fs, Family: "e"}) {
+							return
+						}
+					}
+				}
+			}
+		}
+		// (f) the name part of the tag is a placeholder / an expression that resolves to nothing: a
+		// by-type point, ranked like one written without a name, next to such a one
+		for _, pop := range pops3 {
+			for _, qa := range qualArgs {
+				for _, nm := range []string{"${c8nokey:}", "${c8nokey:${c8other:}}"} {
+					s, l, plain := qField{Kind: "single", Qual: qa, Name: nm}, qField{Kind: "slice", Qual: qa, Name: nm}, qField{Kind: "single", Qual: qa}
+					for _, fs := range [][]qField{{s, l}, {plain, s}} {
+						if !yield(resolveCase{Pop: pop, Fields: fs, Family: "f"}) {
 							return
 						}
 					}
@@ -263,7 +281,7 @@ type resolveExec struct {
 func resolveOnce(c *core.Ctx, cs resolveCase, perm []int, ch *envx.Chooser) (resolveExec, *scen.StartObs) {
 	var fields []reflect.StructField
 	for i, f := range cs.Fields {
-		tag := f.Qual
+		tag := f.Name + f.Qual
 		if f.Opt {
 			tag += ",required=false"
 		}
